@@ -100,6 +100,10 @@ class ComplexAngularCentralGaussian(_ProbabilisticModel):
             # It is likely that eig is more stable than eigh.
             try:
                 eigenvals, eigenvecs = np.linalg.eig(covariance)
+                # In contrast to eigh, eig does not return orthonormal
+                # eigenvectors for repeated eigenvalues (e.g. the zeros of a
+                # rank deficient covariance).
+                eigenvecs, _ = np.linalg.qr(eigenvecs)
             except np.linalg.LinAlgError:
                 if eigenvalue_floor == 0:
                     raise RuntimeError(
